@@ -64,6 +64,7 @@ def check(run: Run, prog: Program, model: Model, tier: str) -> None:
         # MONOTONE: every constraint row of {P} is still present under {P, value}
         mono = True
         mono_why = ""
+        mono_bad: Set[str] = set()
         for prop in st.props:
             if prop == "value":
                 continue
@@ -75,13 +76,25 @@ def check(run: Run, prog: Program, model: Model, tier: str) -> None:
             e2 = {r.error for r in r2}
             if not e1 <= e2:
                 mono = False
+                mono_bad.add(prop)
                 mono_why = f"the `{prop}` check ({sorted(e1 - e2)}) disappears once a value is fixed"
+        # is the pinned value compared exactly?  (float: tolerance / precision rounding -> the result accepts a
+        # neighbourhood of v, so "v was validated" no longer implies "everything the result accepts was")
+        rv, _ = extract(prog, model, "Validator", hook, Config(("value",)))
+        vrows = [r for r in rv if r.error == "ValueValidationError"]
+        exact = bool(vrows) and all(isinstance(r.term, Term) and r.term.op == "eq" and r.polarity is False and
+                                    {a.key() for a in r.term.args} == {"value", "props.value"} for r in vrows)
         for cfg in configs_for(st, tier):
             paths = run_visit(prog, model, "Substitutor", hook, cfg, substitutor_ctx, unroll=1)
             rets = [p for p in paths if p.outcome == "return"]
             construct = f"Substitutor.{hook} {cfg.label}"
             if not rets:
                 run.undecided("W1-SCALAR", construct, f.loc, "no returning path")
+                continue
+            if not exact and (mono_bad & set(cfg.setprops)):
+                run.violated("W1-SCALAR", construct, f.loc,
+                             f"the pinned value is compared with a tolerance, so the result accepts neighbours of v; {mono_why}",
+                             witness="(schema.float.min(1.0).precision(1) % 1.0) accepts 0.96, which the original rejects")
                 continue
             vf = all(validated(p) is True for p in rets)
             cr, why = True, ""
@@ -139,7 +152,9 @@ def check(run: Run, prog: Program, model: Model, tier: str) -> None:
                 elif of is False and gf.value is True:
                     probs.append(f"required key {k.key()} becomes optional")
                 if given.get(k.key()) is not True and gm is not None and gm.key() != tv.items[0].key():
-                    probs.append(f"member of unspecified key {k.key()} is replaced by {gm.key()[:30]}")
+                    narrowed = isinstance(gm, Sym) and gm.origin and gm.origin[0] == "accept" and gm.origin[1].key() == tv.items[0].key()
+                    if not narrowed:        # a substitution INTO the original member only narrows it
+                        probs.append(f"member of unspecified key {k.key()} is replaced by {gm.key()[:30]}")
             if tbl.lookup(ELL) is not None and not had_rel:
                 probs.append("a relaxed marker `...: ...` is introduced: undeclared keys become acceptable")
             extra = [k.key() for k, _ in tbl.pairs() if not is_ell(k) and orig.lookup(k) is None]
@@ -253,4 +268,10 @@ MUTANTS = [
                 "    def visit_bool(self, schema: BoolSchema, *, value: Any = Nil, **kwargs: Any) -> BoolSchema:\n")]},
     {"name": "neutral: props bound to a local before update", "expect": "SILENT",
      "edits": [(SU, "        return schema.__class__(schema.props.update(value=value))\n\n    def visit_int", "        props = schema.props\n        return schema.__class__(props.update(value=value))\n\n    def visit_int")]},
+]
+
+MUTANTS += [
+    {"name": "float validator returns right after a matching pinned value (bounds no longer enforced)", "rule": "W1-SCALAR",
+     "edits": [("d42/validation/_validator.py", "                if not is_equal:\n                    return result.add_error(ValueValidationError(path, value, schema.props.value))\n",
+                "                if not is_equal:\n                    return result.add_error(ValueValidationError(path, value, schema.props.value))\n            return result\n")]},
 ]
